@@ -1,7 +1,8 @@
 // C06 L-api oracle + L-trace: inactive and suspended queues run nothing; N suspends need exactly N resumes (any depth,
 // including depths that overflow the inline counter into the side counter several times); after the last resume /
 // the activation every pending item and every blocked dispatch_sync caller runs.
-// Scenarios per depth: (0) serial queue suspended from outside, (1) serial queue suspended from its own item,
+// Scenarios per depth: (4)/(5) serial / concurrent queue suspended from an item that runs synchronously as a barrier while a
+// blocked dispatch_sync caller and asynchronous items are already queued behind it, (0) serial queue suspended from outside, (1) serial queue suspended from its own item,
 // (2) concurrent queue suspended from a barrier item, (3) queue created inactive, suspended depth-1 times, activate last.
 // usage: c06_suspend <seed>; output as harness/tr_lane.c ("Q ..." header, "ORACLE ok|VIOL", "E ..." events)
 #define _GNU_SOURCE
@@ -30,17 +31,37 @@ static char vmsg[300]; static int viol;
 static void fail(const char *m, long a, long b, long c){ if(!viol){ viol=1; snprintf(vmsg,sizeof vmsg,"%s %ld %ld %ld",m,a,b,c);} }
 struct sync_arg { dispatch_queue_t q; atomic_int *ran; };
 static void *sync_caller(void *c){ struct sync_arg *a=c; dispatch_sync(a->q,^{ atomic_store(a->ran,1); }); return NULL; }
+struct susp_arg { dispatch_queue_t q; int depth; int conc; atomic_int *en, *g; };
+static void *sync_suspender(void *c){ struct susp_arg *a=c; void (^blk)(void)=^{ atomic_store(a->en,1); for(int w=0; w<50000 && !atomic_load(a->g); w++) usleep(100); for(int i=0;i<a->depth;i++) dispatch_suspend(a->q); };
+  if(a->conc) dispatch_barrier_sync(a->q,blk); else dispatch_sync(a->q,blk); return NULL; }
 static void scenario(int kind, int depth, int qidx){
   atomic_int a_ran=0, s_ran=0, extra=0; __block atomic_int *ar=&a_ran, *sr=&s_ran, *ex=&extra;
-  dispatch_queue_attr_t attr = kind==2? DISPATCH_QUEUE_CONCURRENT : DISPATCH_QUEUE_SERIAL; if(kind==3) attr=dispatch_queue_attr_make_initially_inactive(attr);
+  dispatch_queue_attr_t attr = (kind==2||kind==5)? DISPATCH_QUEUE_CONCURRENT : DISPATCH_QUEUE_SERIAL; if(kind==3) attr=dispatch_queue_attr_make_initially_inactive(attr);
   dispatch_queue_t q=dispatch_queue_create("c06",attr); curq=qidx; CUR=q;
-  printf("Q %d width %d stateoff %ld\n", qidx, kind==2?4094:1, (long)((char*)_dispatch_verif_queue_state_addr(q)-(char*)q));
+  printf("Q %d width %d stateoff %ld\n", qidx, (kind==2||kind==5)?4094:1, (long)((char*)_dispatch_verif_queue_state_addr(q)-(char*)q));
   int need = depth;   // resumes (or resumes + activate) needed
   if(kind==0){ for(int i=0;i<depth;i++) dispatch_suspend(q); }
   else if(kind==1 || kind==2){ dispatch_semaphore_t done=dispatch_semaphore_create(0);
     void (^blk)(void)=^{ for(int i=0;i<depth;i++) dispatch_suspend(q); dispatch_semaphore_signal(done); };
     if(kind==2) dispatch_barrier_async(q,blk); else dispatch_async(q,blk);
     dispatch_semaphore_wait(done,DISPATCH_TIME_FOREVER); }
+  else if(kind==4 || kind==5){ // the suspending item runs synchronously as a barrier; the work that must wait is queued behind it while it runs
+    __block atomic_int entered=0, go=0; atomic_int *en=&entered, *g=&go;
+    pthread_t ts; struct { dispatch_queue_t q; int depth; int conc; atomic_int *en, *g; } *sa2=malloc(sizeof *sa2); sa2->q=q; sa2->depth=depth; sa2->conc=(kind==5); sa2->en=en; sa2->g=g;
+    pthread_create(&ts,NULL,sync_suspender,sa2);
+    for(int w=0; w<5000 && !atomic_load(en); w++) usleep(200);
+    dispatch_async(q,^{ atomic_store(ar,1); });
+    if(kind==5) dispatch_async(q,^{ atomic_fetch_add(ex,1); });
+    pthread_t th2; struct sync_arg *sb=malloc(sizeof *sb); sb->q=q; sb->ran=&s_ran; pthread_create(&th2,NULL,sync_caller,sb);
+    usleep(3000); atomic_store(g,1); pthread_join(ts,NULL); usleep(2000);
+    for(int i=0;i<need;i++){
+      if(a_ran||s_ran||extra) { fail("an item started while the queue was suspended by a synchronously running barrier item: kind/depth/resumes-issued",kind,depth,i); break; }
+      dispatch_resume(q); if(i<need-1 && (i%16==15 || i>=need-3)) usleep(1500); }
+    if(!viol){ for(int w=0; w<5000 && !(a_ran&&s_ran); w++) usleep(1000);
+      if(!a_ran) fail("pending async item did not run after the last resume: kind/depth",kind,depth,0);
+      else if(!s_ran) fail("blocked dispatch_sync caller did not run after the last resume: kind/depth",kind,depth,0); }
+    if(!viol){ pthread_join(th2,NULL); dispatch_barrier_sync(q,^{}); CUR=NULL; dispatch_release(q); } else CUR=NULL;
+    return; }
   else { for(int i=0;i<depth-1;i++) dispatch_suspend(q); }
   // work that must not start yet
   dispatch_async(q,^{ atomic_store(ar,1); });
@@ -66,7 +87,7 @@ static void scenario_external(int qidx){ dispatch_queue_t q=dispatch_queue_creat
 int main(int argc,char**argv){ uint64_t seed=argc>1?strtoull(argv[1],0,0):1; rs=seed; evs=calloc(MAXEV,sizeof *evs);
   _dispatch_verif_atomic_cb=cb;
   static const int depths[]={1,2,31,32,33,63,64,65,95,96,97,127,128,129,200}; int nd=(int)(sizeof depths/sizeof *depths); int qi=0, sc=0;
-  for(int k=0;k<4 && !viol;k++) for(int d=0; d<nd && !viol; d++){ if(((seed+ (uint64_t)k*7 + (uint64_t)d)%3)==0 && depths[d]<96) continue; scenario(k,depths[d],qi++); sc++; }
+  for(int k=0;k<6 && !viol;k++) for(int d=0; d<nd && !viol; d++){ if(((seed+ (uint64_t)k*7 + (uint64_t)d)%3)==0 && depths[d]<96) continue; scenario(k,depths[d],qi++); sc++; }
   for(int i=0;i<6 && !viol;i++){ scenario_external(qi++); sc++; }
   _dispatch_verif_atomic_cb=0;
   if(viol) printf("ORACLE VIOL seed=%llu %s\n",(unsigned long long)seed,vmsg); else printf("ORACLE ok items=%d events=%lu\n",sc,atomic_load(&nev));
